@@ -4,10 +4,17 @@ import re,sys
 SRCFILE=sys.argv[2]; NS=sys.argv[3]; IMPORT=sys.argv[4]
 src=open(SRCFILE).read()
 def get_stmt(name):
-    m=re.search(r'^((?:/--(?:(?!-/).)*-/\s*)?)(?:omit[^\n]*\n)?theorem '+re.escape(name)+r'\b', src, re.M|re.S)
+    m=re.search(r'^((?:/--(?:(?!-/).)*-/\s*)?)(?:omit[^\n]*\n)?theorem '+re.escape(name)+r"(?![\w?'.])", src, re.M|re.S)
     assert m, name
     start=m.end()
-    end=src.index(':= by', start)
+    depth=0; i=start; end=None
+    while i < len(src):
+        ch=src[i]
+        if ch in '([{⟨': depth+=1
+        elif ch in ')]}⟩': depth-=1
+        elif depth==0 and src.startswith(':=', i):
+            end=i; break
+        i+=1
     # doc
     doc=m.group(1)
     return doc, src[start:end]
